@@ -89,7 +89,7 @@ def fieldVals (d : MDoc) (f : String) : List V :=
   if isArrayField f then
     match d.array f with
     | none => [.null]
-    | some l => dedupV l
+    | some l => if l.isEmpty then [.null] else dedupV l   -- a nil or empty array is indexed under nil (fix e25659e)
   else [d.scalar f]
 
 /-- all keys of a document under the indexed fields (cartesian product) -/
